@@ -91,6 +91,9 @@ func VerifC09Redeliver() {
 		vFlush(cl2)
 		w = vParseWire(vConnWritten(cl2.Net.Conn), 5)
 		vAssert("resend-transcript-parses", w.Trailing == 0)
+		if vParam("WF", 0) == 1 {
+			vAssertWellFormed(w, 5, 0) // C23: what is resent is well-formed (fixed header flags of PUBREL, DUP only on PUBLISH)
+		}
 		for id, st := range state {
 			npub, nrel := 0, 0
 			for _, p := range w.Pkts {
